@@ -746,6 +746,20 @@ func fieldNameAt(fa *ssa.FieldAddr) string {
 }
 
 // freshSlice: v is a slice allocated in this function (make, append to such, re-slice of such).
+// freshResult: result number i of h is a freshly allocated slice on every return.
+func freshResult(h *ssa.Function, i int, seen map[ssa.Value]bool) bool {
+	n, ok := 0, true
+	eachInstr(h, func(in ssa.Instruction) {
+		if r, isRet := in.(*ssa.Return); isRet && i < len(r.Results) {
+			n++
+			if !freshSlice(r.Results[i], seen) {
+				ok = false
+			}
+		}
+	})
+	return n > 0 && ok
+}
+
 func freshSlice(v ssa.Value, seen map[ssa.Value]bool) bool {
 	if seen[v] {
 		return true
@@ -763,6 +777,16 @@ func freshSlice(v ssa.Value, seen map[ssa.Value]bool) bool {
 	case *ssa.Call:
 		if builtinName(t) == "append" && len(t.Call.Args) > 0 {
 			return freshSlice(t.Call.Args[0], seen)
+		}
+		// the single result of a module helper all of whose returns are fresh slices
+		if h := t.Call.StaticCallee(); h != nil && h.Blocks != nil && h.Pkg != nil && inModule(h.Pkg.Pkg) && h.Signature.Results().Len() == 1 {
+			return freshResult(h, 0, seen)
+		}
+	case *ssa.Extract:
+		if call, ok := t.Tuple.(*ssa.Call); ok {
+			if h := call.Call.StaticCallee(); h != nil && h.Blocks != nil && h.Pkg != nil && inModule(h.Pkg.Pkg) {
+				return freshResult(h, t.Index, seen)
+			}
 		}
 	case *ssa.Phi:
 		for _, e := range t.Edges {
